@@ -66,6 +66,8 @@ struct St {
     cret: u64,
     perturb_seed: u64,
     perturb_pct: u64,
+    /// the caller has returned from dropping the pool (tasks of kind 9 / 10 wait for this)
+    drop_returned: bool,
     /// more than MAX_EVENTS points reported in one run: some thread is spinning (livelock); recording stops
     flood: bool,
 }
@@ -240,9 +242,12 @@ fn total_threads() -> usize {
 /// 6 barrier: wait until `barrier` task bodies are running at the same time (a pool with that many threads must
 /// get there: "up to N tasks run at the same time"); gives up after the escalating waits and reports
 /// Barrier_Timeout, which no action of the model explains,
-/// 7 / 8: wait until start() has been called `work` times (a task that spans a restart), then panic / return
+/// 7 / 8: wait until start() has been called `work` times (a task that spans a restart), then panic / return,
+/// 9 / 10: keep running until the caller has returned from drop() (so stop() and drop() happen while this task
+/// runs and the ones behind it are queued; if either waited for the task this would never end), then return / panic
+/// (10: a panic that arrives after Drop has taken the handles)
 fn panics(kind: u8) -> bool {
-    matches!(kind, 1 | 4 | 5 | 7)
+    matches!(kind, 1 | 4 | 5 | 7 | 10)
 }
 
 struct Counters {
@@ -296,6 +301,17 @@ fn make_task(t: i64, kind: u8, work: u64, c: Arc<Counters>) -> impl FnOnce() + S
                     std::thread::sleep(Duration::from_micros(50));
                 }
             }
+            9 | 10 => {
+                let t0 = Instant::now();
+                let total: u64 = WAITS.iter().sum();
+                while !lock().drop_returned {
+                    if t0.elapsed() > Duration::from_secs(total + 2) {
+                        record("Wait_Timeout", t, 0); // no action of the model explains this
+                        break;
+                    }
+                    std::thread::sleep(Duration::from_micros(50));
+                }
+            }
             _ => {}
         }
         if panics(kind) {
@@ -339,7 +355,10 @@ fn spawn_caller(c: Arc<Counters>, kinds: Arc<Vec<u8>>) -> (Sender<Cmd>, std::thr
                         pool.as_ref().unwrap().execute(make_task(t, kind, work, c.clone()));
                     }
                     Cmd::Stop => pool.as_mut().unwrap().stop(),
-                    Cmd::Drop => drop(pool.take()),
+                    Cmd::Drop => {
+                        drop(pool.take());
+                        lock().drop_returned = true;
+                    }
                     Cmd::Pause(us) => std::thread::sleep(Duration::from_micros(us)),
                     Cmd::Yield => std::thread::yield_now(),
                     Cmd::WaitTasks(k) => {
@@ -439,6 +458,7 @@ fn reset_state(gated: bool, perturb_seed: u64, perturb_pct: u64) {
     st.perturb_seed = perturb_seed;
     st.perturb_pct = perturb_pct;
     st.flood = false;
+    st.drop_returned = false;
 }
 
 fn flush_run(out: &mut std::fs::File, n: usize, tasks: usize, pan: &[i64]) {
@@ -479,6 +499,7 @@ fn random_mode(args: &[String]) {
     let mut monitored_runs = 0usize;
     let mut barrier_runs = 0usize;
     let mut restart_runs = 0usize;
+    let mut outliving_runs = 0usize;
     for run in 0..runs {
         let n = if rng.chance(1, 2) { rng.range(1, 3.min(max_n)) } else { rng.range(1, max_n) };
         let started = !rng.chance(1, 25);
@@ -547,8 +568,21 @@ fn random_mode(args: &[String]) {
                 }
             }
         }
+        // one run in five: the first one or two tasks of the last segment outlive stop() and drop()
+        let outliving = segments >= 1 && !barrier_run && tasks > 0 && rng.chance(1, 5);
+        if outliving {
+            let mine: Vec<usize> = (1..=tasks).filter(|t| seg_of[*t] == segments).collect();
+            if !mine.is_empty() {
+                for k in 0..rng.range(1, 2.min(mine.len())) {
+                    kinds[mine[k]] = if rng.chance(1, 2) { 9 } else { 10 };
+                }
+                spanning[segments] = true;
+                outliving_runs += 1;
+            }
+        }
         let pan: Vec<i64> = (1..=tasks).filter(|t| panics(kinds[*t])).map(|t| t as i64).collect();
         let stops: Vec<bool> = (0..=segments).map(|_| rng.chance(1, 2)).collect();
+        let double_stop: Vec<bool> = (0..=segments).map(|_| rng.chance(1, 6)).collect();
         let stop = segments > 0 && stops[segments];
         let wait_before = rng.below(3); // 0: none, 1: all tasks done, 2: short pause
         let pause_mid = rng.below(3);
@@ -602,6 +636,10 @@ fn random_mode(args: &[String]) {
             if stops[sg] {
                 cmds.push(Cmd::Stop);
                 script.push_str("stop ");
+                if double_stop[sg] {
+                    cmds.push(Cmd::Stop);
+                    script.push_str("stop ");
+                }
                 match pause_mid {
                     1 => cmds.push(Cmd::Pause(rng.range(1, 2000) as u64)),
                     2 => cmds.push(Cmd::Yield),
@@ -669,7 +707,8 @@ fn random_mode(args: &[String]) {
             }
             monitored_runs += 1;
         }
-        let entered = (1..=tasks).filter(|t| counters.ran(*t) == 1).count();
+        // exact counts from the task bodies themselves: entered exactly once, returned exactly once unless it panics
+        let entered = (1..=tasks).filter(|t| counters.ran(*t) == 1 && counters.done(*t) == if panics(kinds[*t]) { 0 } else { 1 }).count();
         driver_event("Quiesced", entered as i64, live_workers() as i64);
         flush_run(&mut out, n, tasks, &pan);
         let nev = lock().events.len();
@@ -695,7 +734,7 @@ fn random_mode(args: &[String]) {
     }
     out_line(&json!({"summary": true, "mode": "random", "runs": runs_done, "events": total_events, "tasks": total_tasks,
                      "panicking_tasks": total_panics, "distinct_shapes": shapes.len(), "hang": hang, "samples": samples, "fingerprints": fingerprints,
-                     "monitored_runs": monitored_runs, "barrier_runs": barrier_runs, "restart_runs": restart_runs}));
+                     "monitored_runs": monitored_runs, "barrier_runs": barrier_runs, "restart_runs": restart_runs, "outliving_runs": outliving_runs}));
     std::process::exit(0);
 }
 
@@ -999,7 +1038,7 @@ fn run_behaviour(id: i64, b: &Value, out: &mut std::fs::File, recovery_threads: 
                 }
             }
             if fail.is_none() {
-                let entered = (1..=tasks).filter(|t| counters.ran(*t) == 1).count();
+                let entered = (1..=tasks).filter(|t| counters.ran(*t) == 1 && counters.done(*t) == if pan_flags[*t - 1] { 0 } else { 1 }).count();
                 driver_event("Quiesced", entered as i64, live_workers() as i64);
                 flush_run(out, n, tasks, &pan);
             }
